@@ -552,8 +552,14 @@ func c29Queue(c *Ctx) {
 		ws, _ := c.P.FieldWriters(field)
 		for _, w := range ws {
 			if w.Kind == "store" {
-				ok = false
-				names = append(names, w.Fn)
+				found := false
+				for _, a := range allowed {
+					found = found || a == w.Fn
+				}
+				if !found {
+					ok = false
+					names = append(names, w.Fn)
+				}
 			}
 		}
 		c.Check(ok, "writers", field+" ⊆ {"+strings.Join(allowed, ", ")+"}", token.NoPos, strings.Join(names, ", "), "stores found in: "+strings.Join(names, ", "))
